@@ -239,6 +239,8 @@ def build(case, t=None):
         kw["t_ref"] = False
     elif case["t_ref"] is not None:
         kw["t_ref"] = Time(case["t_ref"], format="mjd", scale="tcb")
+    if case.get("nosort"):
+        kw["sort"] = False          # the observations stay in the order given (a public option of RVData)
     data = RVData(tt, rv=rv, rv_err=err, **kw)
     s = JokerSamples()
     s["P"] = np.array([case["P"]], dtype=np.float32 if case.get("narrow") else float) * u.Unit(case["unit"])
@@ -254,11 +256,23 @@ def to_float(x):
     return float(v.reshape(-1)[0])
 
 
+def in_time_order(case, t, ph):
+    """RVData(sort=False) keeps the observations - hence their phases - in the order given: bring them into time order (stable;
+    equal epochs have equal phases) so that they line up with the sorted epochs of the oracle"""
+    if not case.get("nosort"):
+        return ph
+    tt = np.array(case["t"] if t is None else t, dtype=float)
+    if len(ph) != len(tt):
+        return ph
+    return np.asarray(ph)[np.argsort(tt, kind="stable")]
+
+
 def impl_diag(case, t=None):
     from thejoker.samples_analysis import max_phase_gap, periods_spanned, phase_coverage
     import astropy.units as u
     data, s = build(case, t)
     ph = np.asarray(u.Quantity(data.phase(s["P"])).to_value(u.one), dtype=float).reshape(-1)
+    ph = in_time_order(case, t, ph)
     return dict(phase=[float(v) for v in ph], gap=to_float(max_phase_gap(s, data)),
                 cov=float(phase_coverage(s, data, n_bins=case["n_bins"])), per=to_float(periods_spanned(s, data)))
 
@@ -297,6 +311,10 @@ def check_pattern(ctx, g, case, tagx=""):
     nb = case["n_bins"]
     inp = dict(case)
     ctx.count(f"pattern:{case['pattern']}")
+    if case.get("nosort"):
+        ctx.count("data kept in the order given (RVData(sort=False))")
+        if any(a > b for a, b in zip(case["t"], case["t"][1:])):
+            ctx.count("... and that order is not the time order")
     ctx.count(f"unit:{case['unit']}")
     if case.get("t_ref_disabled"):
         ctx.count("t_ref disabled (t_ref=False)")
@@ -389,6 +407,7 @@ def phase_other_epoch(ctx, g, case, rng):
     other = float(dyadic(float(ts[0]) + rng.uniform(-2, 3) * span, 10))
     Pd = F(case["P"]) * UNIT_DAYS[case["unit"]]
     got = np.asarray(u.Quantity(data.phase(s["P"], t_ref=Time(other, format="mjd", scale="tcb"))).to_value(u.one)).reshape(-1)
+    got = in_time_order(case, None, got)
     pq = exact_phases(ts, F(other), Pd)
     m = ctx.model({"op": "diag.phase", "t": [core.bits(float(v)) for v in ts], "tref": core.bits(other),
                    "P": core.bits(case["P"]), "Pscale": str(UNIT_DAYS[case["unit"]])})
@@ -411,6 +430,7 @@ def sym_case(ctx, g, rng):
     case = gen_pattern(rng, force_dyadic=True)
     case["t_ref_disabled"] = False
     case["t_ref"] = None            # default epoch = earliest observation (changes under reversal: covered by the theorem)
+    case["nosort"] = g["index"] % 2 == 1   # every other twin pair is handed over unsorted (shuffled / reversed order is then seen by the code)
     impl, ex = check_pattern(ctx, g, case, tagx="base")
     t = np.array(case["t"])
     # shuffled twin
@@ -592,6 +612,7 @@ def run_case(ctx, g):
     rng = ctx.case_rng(kind, index)
     if kind == "gap":
         case = gen_pattern(rng)
+        case["nosort"] = index % 4 == 3        # by case index, not by coin: the coverage target below holds for every seed
         check_pattern(ctx, g, case)
         if rng.random() < 0.35:
             phase_other_epoch(ctx, g, case, rng)
@@ -600,7 +621,9 @@ def run_case(ctx, g):
     elif kind == "map":
         map_case(ctx, g, rng)
     elif kind == "gap_big":
-        check_pattern(ctx, g, gen_pattern(rng, nmax=400))
+        case = gen_pattern(rng, nmax=400)
+        case["nosort"] = index % 4 == 3
+        check_pattern(ctx, g, case)
     elif kind == "map_big":
         map_case(ctx, g, rng, nmax=20000)
     else:
@@ -625,6 +648,8 @@ def post(ctx):
     ctx.require("n_bins > 8", c["nbins:large"], 30)
     for p in PATTERNS:
         ctx.require(f"pattern {p}", c[f"pattern:{p}"], 8)
+    ctx.require("data kept in the order given, that order not being the time order (RVData(sort=False))",
+                c["... and that order is not the time order"], 100)
     ctx.require("shuffled twins", c["sym:shuffled"], 50)
     ctx.require("time-reversed twins", c["sym:reversed"], 50)
     ctx.require("reversal moves the largest arc onto / off the 0-1 seam", c["sym:reversal_moves_largest_arc_to_seam"], 10)
